@@ -189,6 +189,14 @@ def run(ctx):
         if r["kind"] == "replay":
             r["mapv"] = maps[r["map"]]
     acc, rej = judge(ctx, det + worst, "C04 replays")
+    if not rej:
+        def corrupt(t):
+            for e in t:
+                if e["ev"] == "Exec" and e["o"]["res"] == "hit":
+                    e["o"]["owner"]["t"] = "t2" if e["o"]["owner"]["t"] == "t1" else "t1"
+                    return t
+            return None
+        cl.binding_selfcheck(ctx, [trace_of(r) for r in det], corrupt, "hit owner type")
     # liveness of the harness itself: only after leg C, so that a drastic mutant is a VIOLATION, not exit 2
     if not rej and summ.get("hits", 0) < summ["n"] // 50:
         raise vlib.Infra("dead driver: only %d hits in %d replays" % (summ.get("hits", 0), summ["n"]))
